@@ -1,4 +1,5 @@
 import LinfaSpec.Proofs.Scaling
+import LinfaSpec.Proofs.ScalingWhiten
 import Mathlib.Analysis.Real.Sqrt
 
 /-!
@@ -238,6 +239,63 @@ theorem maxabs_one (eps : α) (h0 : 0 ≤ eps) (p : Nat) (rows : List (List α))
   · rw [h] at hge; linarith
   · exact le_antisymm (by rw [h]; exact hall w hw) hge
 
+/-- **a constant column goes to the lower end `lo`** under min-max scaling (the statement only speaks of
+non-constant columns; this is what the code does with the others: scale 1, offset = the constant) -/
+theorem minmax_constant_to_lo (eps : α) (h0 : 0 ≤ eps) (p : Nat) (rows : List (List α)) (lo hi : α)
+    (hlohi : lo ≤ hi) (hn : rows ≠ []) (hrows : ∀ r ∈ rows, r.length = p) (j : Nat) (hj : j < p)
+    (c : α) (hc : ∀ x ∈ col rows j, x = c) :
+    ∃ sc y, fitMinMax eps p rows lo hi = .ok sc ∧ transform sc p rows = some y ∧
+      col y j = (col rows j).map fun _ => lo := by
+  have hlen : ¬ rows.length = 0 := by
+    intro h; exact hn (List.length_eq_zero_iff.mp h)
+  let sc : Scaler α :=
+    { offsets := (cols p rows).map minCol
+      scales := (cols p rows).map (fun c => invOrOne eps (maxCol c - minCol c))
+      method := .minMax lo hi }
+  have hfit : fitMinMax eps p rows lo hi = .ok sc := by
+    unfold fitMinMax; rw [if_neg hlen, if_neg (not_lt.mpr hlohi)]
+  have ho : sc.offsets.length = p := by simp [sc, cols]
+  have hs : sc.scales.length = p := by simp [sc, cols]
+  refine ⟨sc, rows.map (transformRow sc), hfit, transform_some sc p rows ho hrows, ?_⟩
+  rw [col_map_transformRow sc p rows ho hs hrows j hj]
+  have hoj : sc.offsets.getD j 0 = minCol (col rows j) := getD_cols_map minCol p rows j hj
+  have hsj : sc.scales.getD j 0 = invOrOne eps (maxCol (col rows j) - minCol (col rows j)) :=
+    getD_cols_map (fun c => invOrOne eps (maxCol c - minCol c)) p rows j hj
+  have hne := col_ne_nil rows j hn
+  have hmin : minCol (col rows j) = c := hc _ (minCol_spec _ hne).2
+  have hmax : maxCol (col rows j) = c := hc _ (maxCol_spec _ hne).2
+  rw [hoj, hsj, hmin, hmax, sub_self, invOrOne_zero eps h0]
+  apply List.map_congr_left
+  intro x hx
+  rw [hc x hx]
+  simp [sc, transformCell]
+
+/-- **every calling form reaches the same fit**: `LinearScalerParams::new(m)`, the `method(m)` setter on
+any parameter object, and the constructor functions all fit with the method they name; `fitParams`
+(= `ScalingMethod::fit`) dispatches to the three fitting routines -/
+theorem calling_forms_agree (eps : α) (p : Nat) (rows : List (List α)) (q : Params α) (m : Method α)
+    (wm ws : Bool) (lo hi : α) :
+    fitParams eps p rows (q.setMethod m) = fitParams eps p rows (Params.new m) ∧
+    fitParams eps p rows (Params.new (.standard wm ws)) = fitStandard eps p rows wm ws ∧
+    fitParams eps p rows (Params.new (.minMax lo hi)) = fitMinMax eps p rows lo hi ∧
+    fitParams eps p rows (Params.new .maxAbs) = fitMaxAbs eps p rows ∧
+    fitParams eps p rows Params.standard = fitStandard eps p rows true true ∧
+    fitParams eps p rows Params.standardNoMean = fitStandard eps p rows false true ∧
+    fitParams eps p rows Params.standardNoStd = fitStandard eps p rows true false ∧
+    fitParams eps p rows Params.minMax = fitMinMax eps p rows 0 1 ∧
+    fitParams eps p rows (Params.minMaxRange lo hi) = fitMinMax eps p rows lo hi ∧
+    fitParams eps p rows Params.maxAbs = fitMaxAbs eps p rows :=
+  ⟨rfl, rfl, rfl, rfl, rfl, rfl, rfl, rfl, rfl, rfl⟩
+
+/-- the `Whitener::method(m)` setter replaces the method whatever the constructor chose, and the fit
+runs the factorisation of *that* method -/
+theorem whitener_setter_overrides {ε : Type}
+    (decomp : WMethod → List (List α) → Except ε (List (List α))) (q : WParams) (m : WMethod)
+    (p : Nat) (rows : List (List α)) :
+    (q.setMethod m).method = m ∧
+    whitenFitParams decomp (q.setMethod m) p rows = whitenFit (decomp m) p rows :=
+  ⟨rfl, rfl⟩
+
 end linear
 
 /-! ### norm scaler -/
@@ -450,28 +508,101 @@ theorem flipped_range_rejected (eps : α) (p : Nat) (rows : List (List α)) (lo 
     intro h; exact hn (List.length_eq_zero_iff.mp h)
   unfold fitMinMax; rw [if_neg hlen, if_pos h]
 
-/-
-Full whitening statement (kept visible, NOT proved here):
-  for `n × p` data `X` with mean `m`, sample covariance `S = (X-m)ᵀ(X-m)/(n-1)` and any `W` with
-  `W S Wᵀ = I` (the contract of the SVD / Cholesky step, checked numerically on every full-rank
-  case by the harness), `cov (whitenTransform m W X) = I`.
-Missing: the `p × p` matrix algebra over list-of-lists (`cov(Y) = W S Wᵀ`, a double-sum exchange).
-Proved: the one-column case below, where the contract reads `w·w·var₁(x) = 1`.
--/
-/-- whitening certificate, one feature: if the factor `w` meets its contract `w² · var = 1`
-(variance with divisor `n - 1`), the whitened training column has sample variance one -/
-theorem whiten_identity_cov_partial (c : List α) (w : α)
-    (hcert : w * w * varCol 1 c = 1) :
-    varCol 1 (col (whitenTransform [meanCol c] [[w]] (c.map fun x => [x])) 0) = 1 := by
-  have : col (whitenTransform [meanCol c] [[w]] (c.map fun x => [x])) 0 =
-      c.map fun x => w * x + -(meanCol c * w) := by
-    unfold col whitenTransform
-    rw [List.map_map, List.map_map]
-    apply List.map_congr_left
-    intro x _
-    simp [whitenRow, dotS, sumS]
-    ring
-  rw [this, varCol_affine_ddof, hcert]
+/-! ### whitening: identity sample covariance (all `p`), centred output, fixed affine row map -/
+
+/-- what `Whitener::fit` returns: on non-empty data the column means and the matrix the external
+factorisation produced **for the centred data** `X - mean` -/
+theorem whiten_fit_spec {ε : Type} (decomp : List (List α) → Except ε (List (List α))) (p : Nat)
+    (rows W : List (List α)) (hn : rows ≠ [])
+    (hd : decomp (rows.map fun r => List.zipWith (fun x m => x - m) r ((cols p rows).map meanCol)) = .ok W) :
+    whitenFit decomp p rows = .ok ((cols p rows).map meanCol, W) := by
+  have hlen : ¬ rows.length = 0 := by
+    intro h; exact hn (List.length_eq_zero_iff.mp h)
+  unfold whitenFit
+  rw [if_neg hlen]
+  simp only [hd]
+
+/-- **the whitened training data is centred**: every output column has mean zero -/
+theorem whiten_zero_mean (p : Nat) (rows W : List (List α)) (hn : rows ≠ [])
+    (hrows : ∀ r ∈ rows, r.length = p) (hW : ∀ w ∈ W, w.length = p) (a : Nat) (ha : a < W.length) :
+    meanCol (col (whitenTransform ((cols p rows).map meanCol) W rows) a) = 0 :=
+  meanCol_whitened_zero p rows W hn hrows hW a ha
+
+/-- **sample covariance of the whitened training data = `W · cov(X) · Wᵀ`**, for every number of
+features `p`, every `q × p` matrix `W` and every entry `(a, b)`; `covE` is the sample covariance with
+divisor `n - 1` around the column means (`covE_diag_is_var`: its diagonal is ndarray's `var_axis(ddof = 1)`). -/
+theorem whiten_cov_is_WSWt (p : Nat) (rows W : List (List α)) (hn : rows ≠ [])
+    (hrows : ∀ r ∈ rows, r.length = p) (hW : ∀ w ∈ W, w.length = p) (a b : Nat)
+    (ha : a < W.length) (hb : b < W.length) :
+    covE (whitenTransform ((cols p rows).map meanCol) W rows) a b =
+      ∑ i ∈ Finset.range p, ∑ j ∈ Finset.range p, wE W a i * covE rows i j * wE W b j :=
+  covE_whitened p rows W hn hrows hW a b ha hb
+
+/-- **whitening gives identity sample covariance** whenever the factorisation meets its contract
+`W · cov(X) · Wᵀ = I` (what SVD / Cholesky deliver on full-rank data; checked numerically on every
+full-rank case by the harness): fit succeeds, and the covariance of the transformed training data
+is the identity matrix, entry by entry.  (Replaces the former one-feature `…_partial`.) -/
+theorem whiten_identity_cov {ε : Type} (decomp : List (List α) → Except ε (List (List α))) (p : Nat)
+    (rows W : List (List α)) (hn : rows ≠ []) (hrows : ∀ r ∈ rows, r.length = p)
+    (hW : ∀ w ∈ W, w.length = p)
+    (hd : decomp (rows.map fun r => List.zipWith (fun x m => x - m) r ((cols p rows).map meanCol)) = .ok W)
+    (hcert : ∀ a b, a < W.length → b < W.length →
+      ∑ i ∈ Finset.range p, ∑ j ∈ Finset.range p, wE W a i * covE rows i j * wE W b j =
+        if a = b then 1 else 0) :
+    ∃ mean, whitenFit decomp p rows = .ok (mean, W) ∧
+      ∀ a b, a < W.length → b < W.length →
+        covE (whitenTransform mean W rows) a b = if a = b then 1 else 0 := by
+  refine ⟨_, whiten_fit_spec decomp p rows W hn hd, ?_⟩
+  intro a b ha hb
+  rw [covE_whitened p rows W hn hrows hW a b ha hb, hcert a b ha hb]
+
+/-- the diagonal of `covE` is ndarray's `var_axis(Axis(0), ddof = 1)` (Welford) of the column -/
+theorem covE_diag_is_var (rows : List (List α)) (a : Nat) (hn : rows ≠ []) :
+    covE rows a a = varCol 1 (col rows a) := by
+  have hc : col rows a ≠ [] := col_ne_nil rows a hn
+  have hnn := (length_pos_cast hc).ne'
+  unfold covE varCol
+  rw [welford_state]
+  have hl : (col rows a).length = rows.length := by simp [col]
+  have e : (rows.map fun r => (r.getD a 0 - meanCol (col rows a)) * (r.getD a 0 - meanCol (col rows a))) =
+      (col rows a).map fun x => (1 * x + -meanCol (col rows a)) * (1 * x + -meanCol (col rows a)) := by
+    unfold col; rw [List.map_map]; apply List.map_congr_left; intro r _
+    simp only [Function.comp_def]; ring
+  rw [e, sumsq_map_affine, meanCol_eq, hl]
+  rw [hl] at hnn
+  congr 1
+  field_simp
+  ring
+
+/-- **whitening is a fixed affine map of the row**: output entry `a` is the linear form
+`Σ_i W_ai · r_i` minus the constant `Σ_i W_ai · mean_i` fixed at fit time -/
+theorem whiten_row_affine (p : Nat) (mean : List α) (W : List (List α)) (r : List α)
+    (hm : mean.length = p) (hr : r.length = p) (hW : ∀ w ∈ W, w.length = p) (a : Nat)
+    (ha : a < W.length) :
+    (whitenRow mean W r).getD a 0 =
+      (∑ i ∈ Finset.range p, wE W a i * r.getD i 0) - ∑ i ∈ Finset.range p, wE W a i * mean.getD i 0 := by
+  rw [whitenRow_getD p mean W r hm hr hW a ha, ← Finset.sum_sub_distrib]
+  apply Finset.sum_congr rfl
+  intro i _
+  ring
+
+/-- norm scaling and whitening **commute with row selection** (any index list, repetitions allowed) -/
+theorem norm_whiten_commute_with_selection (k : NormKind) (mean : List α) (W rows : List (List α))
+    (sel : List Nat) :
+    normTransform k (sel.filterMap (rows[·]?)) = sel.filterMap ((normTransform k rows)[·]?) ∧
+    whitenTransform mean W (sel.filterMap (rows[·]?)) =
+      sel.filterMap ((whitenTransform mean W rows)[·]?) := by
+  constructor
+  · unfold normTransform
+    rw [List.map_filterMap]
+    apply List.filterMap_congr
+    intro i _
+    simp [List.getElem?_map]
+  · unfold whitenTransform
+    rw [List.map_filterMap]
+    apply List.filterMap_congr
+    intro i _
+    simp [List.getElem?_map]
 
 end errors
 
@@ -518,10 +649,27 @@ example : transformDataset (R := Nat) (R' := Nat) (T := List Nat) (W := List Nat
     (fun r => some r) id List.length ⟨2, [10, 11], [1, 1], ["a", "b"], []⟩ =
     some ⟨2, [10, 11], [1, 1], ["a", "b"], []⟩ := by simp [transformDataset]
 
-/-- `whiten_identity_cov_partial`: the column `[0, 2]` has sample variance 2, `w = 1/√2` … here
-over ℚ with the column `[0, 2, 4]`·(1/2): variance 1, certificate met by `w = 1` -/
-example : (1 : ℚ) * 1 * varCol 1 [0, 1, 2] = 1 := by
-  rw [varCol, welford_state]; norm_num
+/-- `whiten_identity_cov`: the certificate is satisfiable on non-trivial data — two uncorrelated
+features with sample variances 4 and 1, `W = diag(1/2, 1)` -/
+example :
+    let rows : List (List ℚ) := [[2, 1], [-2, 1], [2, -1], [-2, -1], [0, 0]]
+    let W : List (List ℚ) := [[1 / 2, 0], [0, 1]]
+    ∀ a b, a < W.length → b < W.length →
+      ∑ i ∈ Finset.range 2, ∑ j ∈ Finset.range 2, wE W a i * covE rows i j * wE W b j =
+        if a = b then 1 else 0 := by
+  intro rows W a b ha hb
+  have ha' : a < 2 := ha
+  have hb' : b < 2 := hb
+  have h2a : a = 0 ∨ a = 1 := by omega
+  have h2b : b = 0 ∨ b = 1 := by omega
+  rcases h2a with rfl | rfl <;> rcases h2b with rfl | rfl <;>
+    simp [Finset.sum_range_succ, wE, covE, col, meanCol, sumS, rows, W] <;> norm_num
+
+/-- `minmax_constant_to_lo` / `calling_forms_agree`: a constant column next to a varying one; the setter on a
+max-abs parameter object -/
+example : (∀ x ∈ col ([[7, 2], [7, 5]] : List (List ℚ)) 0, x = 7) ∧
+    ((Params.maxAbs (α := ℚ)).setMethod (.standard true false)).method = .standard true false := by
+  simp [col, Params.setMethod]
 
 noncomputable local instance : Transc ℝ := ⟨Real.sqrt, id, id⟩
 
